@@ -16,9 +16,11 @@
 package main
 
 import (
+	"bufio"
 	"bytes"
 	"context"
 	"encoding/json"
+	"errors"
 	"fmt"
 	"io"
 	"log"
@@ -33,6 +35,8 @@ import (
 
 	"github.com/facebookincubator/dns/dnsrocks/dnsdata/cdb"
 	"github.com/facebookincubator/dns/dnsrocks/dnsdata/rdb"
+
+	gocdb "github.com/repustate/go-cdb"
 
 	"verifharness/complib"
 	"verifharness/hlib"
@@ -79,6 +83,36 @@ type compileCase struct {
 	Buckets  [][2]int      `json:"buckets,omitempty"`
 	Straddle bool          `json:"straddle,omitempty"` // a bucket end was moved because equal keys met at the nominal boundary
 	Runs     []runJ        `json:"runs"`
+}
+
+// longCase: a file with one line of about bufio.MaxScanTokenSize bytes.  The file is
+// pre ++ count times the byte fill ++ post (not stored: rebuilt from these).  When a line reaches the
+// scanner's buffer size the reader stops with bufio.ErrTooLong and every compiler must fail; one byte
+// less and the file must compile, the long line included.
+type longCase struct {
+	Kind       string `json:"kind"`
+	Class      string `json:"class"`
+	Cfg        string `json:"cfg"`
+	Pre        []int  `json:"pre"`   // input
+	Fill       int    `json:"fill"`  // input
+	Count      int    `json:"count"` // input: relative to the limit if Rel is set
+	Post       []int  `json:"post"`  // input
+	Limit      int    `json:"limit"` // bufio.MaxScanTokenSize
+	LineLen    int    `json:"line_len"`
+	ExpectFail bool   `json:"expect_fail"` // some line has at least Limit bytes (computed here, independently of the model)
+	NRec       int    `json:"nrec"`
+	Runs       []runJ `json:"runs"`
+}
+
+// readErrCase: compilation from an io.Reader that returns an error after FailAfter bytes (the public
+// entry points rdb.Compile and cdb.CreateCDBFromReader take readers).  Every setting must fail.
+type readErrCase struct {
+	Kind      string `json:"kind"`
+	Class     string `json:"class"`
+	Cfg       string `json:"cfg"`
+	File      []int  `json:"file"`       // input
+	FailAfter int    `json:"fail_after"` // input
+	Runs      []runJ `json:"runs"`
 }
 
 type bucketCase struct {
@@ -672,6 +706,154 @@ func compileInChild(in, out string, cfg complib.Cfg, s setting) error {
 	return fmt.Errorf("CRASH: %v %s", rerr, tail)
 }
 
+// ---------------------------------------------------------------- reader errors
+
+func maxLineLen(file []byte) int {
+	m := 0
+	for _, l := range bytes.Split(file, []byte("\n")) {
+		if len(l) > m {
+			m = len(l)
+		}
+	}
+	return m
+}
+
+func runLong(scratch string, c *longCase, ncpu int) error {
+	c.Limit = bufio.MaxScanTokenSize
+	file := append(append(hlib.Unints(c.Pre), bytes.Repeat([]byte{byte(c.Fill)}, c.Count)...), hlib.Unints(c.Post)...)
+	c.LineLen = maxLineLen(file)
+	c.ExpectFail = c.LineLen >= c.Limit
+	cc, err := runCompileCase(scratch, "long", c.Cfg, file, settingsOf(c.Runs), false, ncpu)
+	if err != nil {
+		return err
+	}
+	c.NRec = cc.NRec
+	c.Runs = cc.Runs
+	return nil
+}
+
+type failingReader struct {
+	data []byte
+	k    int
+	pos  int
+}
+
+var errInjected = errors.New("injected read error")
+
+func (f *failingReader) Read(p []byte) (int, error) {
+	if f.pos >= f.k {
+		return 0, errInjected
+	}
+	n := copy(p, f.data[f.pos:f.k])
+	f.pos += n
+	return n, nil
+}
+
+func runReadErr(scratch string, c *readErrCase) error {
+	file := hlib.Unints(c.File)
+	cfg := cfgOf(c.Cfg)
+	for i := range c.Runs {
+		r := &c.Runs[i]
+		out := freshDir(scratch)
+		rd := &failingReader{data: file, k: c.FailAfter}
+		var err error
+		t0 := time.Now()
+		if cfg.CDB {
+			w, werr := gocdb.NewWriter(out)
+			if werr != nil {
+				return werr
+			}
+			_, err = cdb.CreateCDBFromReader(rd, w, serial, r.Workers)
+			w.Close()
+		} else {
+			if e := os.MkdirAll(out, 0o755); e != nil {
+				return e
+			}
+			func() {
+				if r.Mode == "builder" {
+					heavy.Lock()
+					defer heavy.Unlock()
+				}
+				_, err = rdb.Compile(rd, serial, out, rdb.CompilationOptions{NumCPU: r.Workers, UseV2KeySyntax: cfg.V2,
+					UseBuilder: r.Mode == "builder", BatchNumParallel: r.Par, BatchSize: r.BS})
+			}()
+		}
+		r.Ms = int(time.Since(t0) / time.Millisecond)
+		os.RemoveAll(out)
+		r.Ok, r.Err, r.GoSame, r.NRec = err == nil, "", false, 0
+		if err != nil {
+			r.Err = err.Error()
+			if len(r.Err) > 160 {
+				r.Err = r.Err[:160]
+			}
+		}
+	}
+	return nil
+}
+
+func runsOf(sets []setting) []runJ {
+	var rs []runJ
+	for _, s := range sets {
+		rs = append(rs, runJ{Mode: s.mode, Workers: s.workers, BS: s.bs, Par: s.par})
+	}
+	return rs
+}
+
+// genLong: variant v of the over-long line cases.
+func genLong(r *hlib.Rng, v int, thorough bool) *longCase {
+	limit := bufio.MaxScanTokenSize
+	g := complib.NewGen(r, 2, 3)
+	kinds := []struct{ name, prefix string }{{"txt", "'long.example.com,"}, {"comment", "# "}, {"generic", ":long.example.com,99,"}}
+	lens := []struct {
+		name string
+		l    int
+	}{{"limit-1", limit - 1}, {"limit", limit}, {"limit+1", limit + 1}, {"2limit", 2 * limit}}
+	poss := []string{"first", "middle", "last", "last-nonl"}
+	k, l, pos, cr := kinds[v%3], lens[v%4], poss[(v/2)%4], v%7 == 4
+	if !thorough {
+		// the quick tier: eight chosen combinations
+		q := [][4]int{{0, 0, 1, 0}, {0, 1, 0, 0}, {1, 2, 1, 0}, {2, 3, 3, 0}, {0, 0, 1, 1}, {1, 0, 3, 0}, {0, 1, 3, 0}, {2, 0, 0, 0}}[v%8]
+		k, l, pos, cr = kinds[q[0]], lens[q[1]], poss[q[2]], q[3] == 1
+	}
+	var before, after []string
+	if pos != "first" {
+		before = g.File(2+r.Intn(4), 0, false, false)
+	}
+	if pos == "first" || pos == "middle" {
+		after = g.File(2+r.Intn(4), 0, false, false)
+	}
+	pre := ""
+	if len(before) > 0 {
+		pre = strings.Join(before, "\n") + "\n"
+	}
+	pre += k.prefix
+	suffix := ""
+	if cr {
+		suffix = "\r" // the CR is part of the token the scanner must hold
+	}
+	count := l.l - len(k.prefix)
+	post := suffix
+	if pos != "last-nonl" {
+		post += "\n"
+	}
+	if len(after) > 0 {
+		post += strings.Join(after, "\n") + "\n"
+	}
+	cfgName := []string{"v1", "cdb", "v2"}[v%3]
+	sets := []setting{{"batches", 2, 7, 4}, {"batches", 16, 100000, 1}}
+	if cfgName == "cdb" {
+		sets = []setting{{"cdb", 1, 0, 0}, {"cdb", 16, 0, 0}}
+	} else if v%4 == 3 || thorough {
+		sets = append(sets, setting{"builder", 2, 0, 0})
+	}
+	crs := ""
+	if cr {
+		crs = "+cr"
+	}
+	return &longCase{Kind: "long", Class: fmt.Sprintf("long-line:%s:%s%s:%s", k.name, l.name, crs, pos), Cfg: cfgName,
+		Pre: hlib.Ints([]byte(pre)), Fill: 'x', Count: count, Post: hlib.Ints([]byte(post)), Runs: runsOf(sets)}
+}
+
 // ---------------------------------------------------------------- main
 
 func settingsOf(runs []runJ) []setting {
@@ -708,6 +890,24 @@ func replay(a *hlib.Args, e *hlib.Emitter, ncpu int) error {
 				return err
 			}
 			runBuckets(&c)
+			e.Emit(&c)
+		case "long":
+			var c longCase
+			if err := json.Unmarshal(raw, &c); err != nil {
+				return err
+			}
+			if err := runLong(a.Scratch, &c, ncpu); err != nil {
+				return err
+			}
+			e.Emit(&c)
+		case "readerr":
+			var c readErrCase
+			if err := json.Unmarshal(raw, &c); err != nil {
+				return err
+			}
+			if err := runReadErr(a.Scratch, &c); err != nil {
+				return err
+			}
 			e.Emit(&c)
 		default:
 			return fmt.Errorf("unknown case kind %q", kind)
@@ -847,6 +1047,40 @@ func run(a *hlib.Args, e *hlib.Emitter) error {
 				c.File = c.File[:0]
 				e.Emit(c)
 			}
+		}
+	}
+
+	// the reader gives up: an over-long line, an error of the io.Reader
+	if a.N > 0 {
+		rk := hlib.NewRng(a.Seed, 5)
+		nl := 8
+		if thorough {
+			nl = 48
+		}
+		for v := 0; v < nl; v++ {
+			c := genLong(rk, v, thorough)
+			if err := runLong(a.Scratch, c, ncpu); err != nil {
+				return err
+			}
+			e.Emit(c)
+		}
+		for v := 0; v < 3; v++ {
+			g := complib.NewGen(rk, 2, 3)
+			file := complib.Join(g.File(12+rk.Intn(10), 2, false, false), true)
+			c := &readErrCase{Kind: "readerr", Class: "read-error", Cfg: []string{"v1", "cdb", "v2"}[v], File: hlib.Ints(file),
+				FailAfter: []int{len(file) / 2, len(file), 1 + rk.Intn(len(file)-1)}[v]}
+			switch c.Cfg {
+			case "cdb":
+				c.Runs = runsOf([]setting{{"cdb", 1, 0, 0}, {"cdb", 16, 0, 0}})
+			case "v1":
+				c.Runs = runsOf([]setting{{"batches", 2, 7, 4}, {"builder", 16, 0, 0}})
+			default:
+				c.Runs = runsOf([]setting{{"batches", 16, 100000, 1}, {"batches", 1, 1, 1}})
+			}
+			if err := runReadErr(a.Scratch, c); err != nil {
+				return err
+			}
+			e.Emit(c)
 		}
 	}
 
